@@ -4,7 +4,7 @@
    byte (i mod 64) of the root compression with output counter i / 64. *)
 From Coq Require Import NArith ZArith List Bool.
 From V Require Import Base.Res Base.Word Spec.Compress Spec.Tree Spec.Blake3
-  Model.Platform Model.RsChunk Model.RsXof Proofs.XofP.
+  Model.Platform Model.RsChunk Model.RsHasher Model.RsXof Proofs.XofP Proofs.IoP Proofs.C02P.
 Import ListNotations.
 Open Scope N_scope.
 
@@ -54,6 +54,16 @@ Proof. intros. unfold b3_hash_mode, hash_mode, b3_root_output. reflexivity. Qed.
 Theorem C03_stream_block : forall o k, wf_out o -> stream spec_c64 o (64 * k) 64 = rblock o k.
 Proof. exact stream_block. Qed.
 
+(* every finalized state defines that stream: finalize_xof of a hasher that absorbed `pieces` (any
+   split, any mode key/flags) is a reader at position 0 of the specification's root output *)
+Theorem C03_finalize_xof_is_the_stream : forall p, PlatformOK p -> forall K F, length K = 8%nat -> forall pieces,
+  len (concat pieces) < 2 ^ 64 ->
+  exists h, updates p (new_internal K F) pieces = Ok h /\
+    hasher_finalize_output p h = Ok (subtree_output spec_c8 tree_height K F 0 (concat pieces)) /\
+    Rd (reader_new (subtree_output spec_c8 tree_height K F 0 (concat pieces)))
+       (subtree_output spec_c8 tree_height K F 0 (concat pieces)) 0.
+Proof. exact finalize_xof_reader. Qed.
+
 (* non-vacuity: a concrete reader, an operation sequence crossing block counter 2^32 *)
 Example C03_nonvacuous :
   let p := sim_platform 8 16 in
@@ -75,3 +85,4 @@ Print Assumptions C03_reader_refines.
 Print Assumptions C03_reader_new.
 Print Assumptions C03_first_32_bytes_are_the_hash.
 Print Assumptions C03_stream_block.
+Print Assumptions C03_finalize_xof_is_the_stream.
